@@ -3,10 +3,12 @@ package props
 import (
 	"bytes"
 	"fmt"
+	"runtime"
 	"sort"
 	"strings"
 	"sync"
 	"testing"
+	"time"
 
 	"github.com/netflix/rend/common"
 	"github.com/netflix/rend/handlers"
@@ -288,6 +290,12 @@ func TestC06Concurrent(t *testing.T) {
 		env.fake.Reset()
 		callers := rapid.SampledFrom([]int{1, 2, 3, 8, 16, 64}).Draw(t, "callers")
 		steps := rapid.IntRange(3, 12).Draw(t, "steps")
+		// one case in eight moves values larger than a socket buffer in both directions
+		huge := rapid.IntRange(0, 7).Draw(t, "huge") == 0
+		if huge {
+			callers = rapid.SampledFrom([]int{2, 3, 4}).Draw(t, "hugeCallers")
+			steps = rapid.IntRange(3, 6).Draw(t, "hugeSteps")
+		}
 		type step struct {
 			c wire.Cmd
 		}
@@ -308,7 +316,11 @@ func TestC06Concurrent(t *testing.T) {
 				switch kind {
 				case wire.Set, wire.Add, wire.Replace, wire.Append:
 					// self-identifying value: caller id and step embedded
-					c.Value = []byte(fmt.Sprintf("<caller %d step %d %s>", ci, s, strings.Repeat("x", rapid.SampledFrom([]int{0, 10, 2000, 8192, 8192}).Draw(t, "pad"))))
+					pads := []int{0, 10, 2000, 8192, 8192}
+					if huge {
+						pads = []int{300000, 1 << 20, 10}
+					}
+					c.Value = []byte(fmt.Sprintf("<caller %d step %d %s>", ci, s, strings.Repeat("x", rapid.SampledFrom(pads).Draw(t, "pad"))))
 					c.Flags = uint32(ci*1000 + s)
 				}
 				plans[ci] = append(plans[ci], c)
@@ -335,7 +347,17 @@ func TestC06Concurrent(t *testing.T) {
 			}(ci)
 		}
 		close(start)
-		wg.Wait()
+		allDone := make(chan struct{})
+		go func() { wg.Wait(); close(allDone) }()
+		select {
+		case <-allDone:
+		case <-time.After(hangBound() + 60*time.Second):
+			noteHang()
+			var dump [1 << 16]byte
+			n := runtime.Stack(dump[:], true)
+			hp := rec.History("TestC06Concurrent", map[string]interface{}{"pool_config": fmt.Sprintf("%+v", cfg), "callers": callers, "problem": "callers never returned", "caller0": cmdsString(plans[0])})
+			t.Fatalf("C06 concurrent %+v, %d callers x %d steps (huge values: %v): some calls through the pool never returned (no faults were injected); saved: %s; goroutines:\n%s", cfg, callers, steps, huge, hp, dump[:n])
+		}
 		for _, p := range problems {
 			if p != "" {
 				hp := rec.History("TestC06Concurrent", map[string]interface{}{"pool_config": fmt.Sprintf("%+v", cfg), "callers": callers, "problem": p})
@@ -360,7 +382,11 @@ func TestC06Concurrent(t *testing.T) {
 				}
 			}
 		}
-		rec.Case(shared, fmt.Sprintf("conc|%+v|%d|%v", cfg, callers, plans), fmt.Sprintf("callers=%d", callers))
+		cls := []string{fmt.Sprintf("callers=%d", callers)}
+		if huge {
+			cls = append(cls, "values-larger-than-a-socket-buffer")
+		}
+		rec.Case(shared, fmt.Sprintf("conc|%+v|%d|%x", cfg, callers, evid.Hash(fmt.Sprint(plans))), cls...)
 		if rec.WantSample(shared) {
 			rec.Sample(shared, map[string]interface{}{"pool_config": fmt.Sprintf("%+v", cfg), "callers": callers, "steps_per_caller": steps, "caller0": cmdsString(plans[0])})
 		}
